@@ -26,7 +26,7 @@ CHECKS = {
                      'through MainProgram.execute, plus Hypothesis draws with random action output and phase order; '
                      'oracle is the documented outcome table transcribed as data and re-compared with the help text.',
                 note='Transcription of the manual tables is trusted (checked against help output of the tree); '
-                     'in-process execution (thorough: sub-process differential).',
+                     'in-process execution (thorough: sub-process differential). In-process runs also record what reaches file descriptors 1/2 of the process (programs run for instructions inherit them): nothing may.',
                 technique='enumerated product + Hypothesis, documented-table oracle'),
     'C03': dict(cat='exploration', ref='3 C03',
                 text='Valid carrier instructions from a grammar of every instruction of every phase (all 13 def '
@@ -38,7 +38,7 @@ CHECKS = {
                      'marker, no probe output, no sandbox ever created, home/cwd/env unchanged; control run shows '
                      'the effects exist without the defect; `symbol` on valid cases lists exactly the definitions.',
                 note='Effects are observed through marker files outside the sandbox, every mkdtemp call of the run '
-                     'and the sandbox root listing; the older template table (defect_has_no_effect) is kept.',
+                     'and the sandbox root listing; the older template table (defect_has_no_effect) is kept. Exhaustive grid result_dir_before_act: 14 reading sites x 6 forms x 4 modes x 2 positions of -rel-result in [setup].',
                 technique='Hypothesis grammar-based generation + deterministic enumeration of (operator, hole), '
                           'no-effect invariant with control run'),
     'C04': dict(cat='fault_enumeration', ref='3 C04',
@@ -67,7 +67,7 @@ CHECKS = {
                      'marker trace unchanged; cycles/unknown headers are errors.',
                 note='API layer through test_case_parser.new_parser with the production setup + CLI layer; exhaustive '
                      'for all documents of <= 3 (quick) / 4 (thorough) lines over the line-kind alphabet; coverage-'
-                     'guided campaign over the same decoder. Known finding KF-C07-1 identified by a defect model.',
+                     'guided campaign over the same decoder. Known finding KF-C07-1 identified by a defect model. Exhaustive sub-check act_blocks_report: the report of a failing act phase quotes all blocks of the act phase (7 layouts x 3 kinds of failure).',
                 technique='exhaustive small documents + Hypothesis line-kind grammar + atheris, reference reader, '
                           'model-free source-text invariant, metamorphic phase permutation'),
     'C08': dict(cat='exploration', ref='3 C08',
